@@ -19,6 +19,9 @@
 (*   "padded"    a valid request with blanks before and after              *)
 (*   "huge"      a valid request of about a megabyte                       *)
 (*   "rawbytes"  bytes that are not UTF-8 text at all   "nul"  a NUL byte  *)
+(*   "surrogate" an unknown action / option name holding a lone surrogate  *)
+(*               (pure ASCII on the wire: a JSON \ud800 escape); the error *)
+(*               reply that echoes the name must still be written          *)
 (* and the client ends the conversation with "EXIT" or by closing the pipe *)
 (* ("EOF").                                                                *)
 (*                                                                         *)
@@ -30,7 +33,7 @@ EXTENDS Integers, Sequences, FiniteSets, TLC, Json
 CONSTANTS MaxReq        \* number of lines the client sends before it ends the conversation
 
 Classes == {"valid", "srcerr", "crash", "print", "bad64", "badjson", "badutf", "notdict", "badaction",
-            "nocode", "codestr", "badopts", "blank", "crlf", "padded", "huge", "rawbytes", "nul"}
+            "nocode", "codestr", "badopts", "blank", "crlf", "padded", "huge", "rawbytes", "nul", "surrogate"}
 Enders == {"EXIT", "EOF"}
 
 \* "any": the property only demands one well-formed reply; whether a source whose constexpr
